@@ -16,7 +16,7 @@ RULE = (
     "values: JSON trees with NaN/inf/-0.0/huge ints/hostile strings containing braces, brackets, quotes, back-slashes, "
     "newlines, U+2028, lone surrogates and the metric tag itself; numpy scalars of all dtypes), interleaved with noise "
     "chunks that do not contain the tag (with/without trailing newline, ending in '{', '}' or a partial tag) and with "
-    "reports that must be rejected (st_ keys, unserialisable values, oversize). The captured stream is written to a file and "
+    "reports that must be rejected (st_ keys, unserialisable values, dictionaries with keys JSON cannot encode, oversize). The captured stream is written to a file and "
     "read with readlines() as LocalBackend does; oracle: retrieve() == the accepted reports, in order, structurally equal "
     "(NaN==NaN, float bit-equality, bool!=int), counter strictly increasing, time stamps non-decreasing. "
     "Non-trivial = >=2 accepted reports, >=1 noise chunk and >=1 hostile string; distinct = distinct choice tape."
@@ -282,7 +282,7 @@ def case_stream(t):
                 expected.append(exp)
                 script.append({"report": _repr(kw)})
             else:
-                why = t.choice(["st_key", "set", "object", "bytes", "complex", "nested-set", "oversize", "none"])
+                why = t.choice(["st_key", "set", "object", "bytes", "complex", "nested-set", "oversize", "none", "tuple-key", "numpy-int-key", "bytes-key"])
                 if why == "st_key":
                     kw["st_" + t.choice(["x", "worker_iter", "decision", ""])] = 1.0
                 elif why == "set":
@@ -297,6 +297,12 @@ def case_stream(t):
                     kw["bad"] = {"a": [1, {2, 3}]}
                 elif why == "none":
                     kw["bad"] = None
+                elif why == "tuple-key":
+                    kw["bad"] = {"counts": {(0, 1): 2, "a": 1}}
+                elif why == "numpy-int-key":
+                    kw["bad"] = {np.int64(3): 1, np.int64(4): 2}
+                elif why == "bytes-key":
+                    kw["bad"] = {b"a": 1}
                 else:
                     kw["bad"] = "x" * (50000 - t.int(0, 40))
                 before = buf.getvalue()
